@@ -1332,7 +1332,7 @@ theorem initial_pos (rs : List Emphasis.Run) (hpos : ∀ r ∈ rs, 1 ≤ r.count
 
 theorem initial_sinv (rs : List Emphasis.Run) (hs : rs.Pairwise (fun a b => a.start + a.count ≤ b.start)) :
     SInv (Emphasis.initial rs) :=
-  ⟨List.Pairwise.nil, hs, fun b hb => by cases hb, fun k p hk => by cases hk⟩
+  ⟨List.Pairwise.nil, hs, fun b hb => (by cases hb), fun k p hk => (by cases hk)⟩
 
 /-- **`process_emphasis` (without bottoms) computes *process emphasis* of the specification**
     (with `openers_bottom`), on any stack of non-empty entries in text order: if it does not fail,
@@ -1393,5 +1393,77 @@ theorem findCoreTokens_refines_spec_partial (s : Str) (fn : Footnotes.Table) (hp
     findCoreTokens s fn = .ok ((Emphasis.emphasis s).map (toCoreM s), []) := by
   rw [findCoreTokens_process s fn hp, runsM_eq s hw]
   rfl
+
+/-- executable form of `StdWs` -/
+def stdWs (s : Str) : Bool := s.all (fun c => !deviantWs c)
+
+theorem stdWs_iff (s : Str) : stdWs s = true ↔ StdWs s := by
+  simp [stdWs, StdWs]
+
+/-- **The hypothesis `StdWs` cannot be dropped: a disagreement between mistletoe and the
+    specification.**  The text `*␟a*` (`*`, U+001F, `a`, `*`) is in the fragment.  U+001F is a control
+    character (category `Cc`): not in `Zs`, not tab / line feed / form feed / carriage return, hence
+    not a Unicode whitespace character, and not punctuation; so the first `*` is left-flanking, the
+    last one right-flanking, and the specification gives `<em>␟a</em>`.  mistletoe has U+001F in
+    `core_tokens.unicode_whitespace`, finds that the first `*` is followed by whitespace, and gives
+    no emphasis.  The real code does the same: `mistletoe.markdown('*\x1fa*')` is
+    `<p>*\x1fa*</p>`.  (The other seven code points, U+000B, U+001C–U+001E, U+0085, U+2028, U+2029,
+    behave alike in `find_core_tokens`, but `Document` splits the text at them first, because
+    `str.splitlines` does.) -/
+theorem not_refines_deviant :
+    Emphasis.plain "*\x1fa*".toList = true ∧
+    findCoreTokens "*\x1fa*".toList [] = .ok ([], []) ∧
+    Emphasis.spans "*\x1fa*".toList = [(0, 1, 3, 4, false)] := by decide +kernel
+
+/-! ### property level (C06, first clause) -/
+
+/-- **C06: the emphasis structure is the specification's.**  For every inline text `s` of the
+    fragment (no `\`, backtick, `[`, `]`, `<`, `&`) without the eight deviant whitespace code points,
+    and every table of link reference definitions: `find_core_tokens(s, root)` does not fail; it
+    returns no code span; every match it returns is a `Strong` or an `Emphasis`; and the matches are,
+    one for one and in the same order, the emphasis nodes that the CommonMark 0.30 delimiter
+    algorithm computes for `s` (`Spec.Emphasis.emphasis`: delimiter runs, left/right flanking, the
+    restrictions on `_`, *process emphasis* with `openers_bottom`, the rule of three on original run
+    lengths, strong iff both lengths ≥ 2): same opening delimiter `[start, ts)`, same closing
+    delimiter `[te, stop)`, same kind.
+
+    `_partial`: see `findCoreTokens_refines_spec_partial` for the added hypothesis `StdWs s`. -/
+theorem C06_emphasis_is_spec_partial (s : Str) (fn : Footnotes.Table) (hp : Emphasis.plain s = true) (hw : StdWs s) :
+    ∃ ms, findCoreTokens s fn = .ok (ms, []) ∧
+      ms = (Emphasis.emphasis s).map (toCoreM s) ∧
+      (∀ m ∈ ms, m.kind = .strong ∨ m.kind = .emphasis) ∧
+      ms.map (fun m => (m.start, m.ts, m.te, m.stop, m.kind == .strong)) = Emphasis.spans s := by
+  refine ⟨_, findCoreTokens_refines_spec_partial s fn hp hw, rfl, ?_, ?_⟩
+  · intro m hm
+    obtain ⟨x, _, rfl⟩ := List.mem_map.1 hm
+    simp only [toCoreM]
+    cases x.strong <;> simp
+  · simp only [Emphasis.spans, List.map_map]
+    apply List.map_congr_left
+    intro x _
+    simp only [Function.comp, toCoreM]
+    cases x.strong <;> rfl
+
+/-- the same for every plain text, with mistletoe's own opener / closer classification of the runs -/
+theorem C06_emphasis_is_process (s : Str) (fn : Footnotes.Table) (hp : Emphasis.plain s = true) :
+    findCoreTokens s fn = .ok ((Emphasis.process (runsM s)).map (toCoreM s), []) :=
+  findCoreTokens_process s fn hp
+
+/-! non-vacuity: emphasis inside strong inside emphasis, `_` and `*` mixed -/
+
+example : findCoreTokens "_x **y *z* y** x_".toList [] =
+    .ok ((Emphasis.emphasis "_x **y *z* y** x_".toList).map (toCoreM "_x **y *z* y** x_".toList), []) :=
+  findCoreTokens_refines_spec_partial _ _ (by decide +kernel) ((stdWs_iff _).1 (by decide +kernel))
+
+example : Emphasis.spans "_x **y *z* y** x_".toList =
+    [(7, 8, 9, 10, false), (3, 5, 12, 14, true), (0, 1, 16, 17, false)] := by decide +kernel
+
+example : ∃ ms, findCoreTokens "***a** b*".toList [] = .ok (ms, []) ∧
+    ms.map (fun m => (m.start, m.ts, m.te, m.stop, m.kind == .strong)) = [(1, 3, 4, 6, true), (0, 1, 8, 9, false)] := by
+  obtain ⟨ms, h1, _, _, h4⟩ := C06_emphasis_is_spec_partial "***a** b*".toList [] (by decide +kernel)
+    ((stdWs_iff _).1 (by decide +kernel))
+  refine ⟨ms, h1, ?_⟩
+  rw [h4]
+  decide +kernel
 
 end Mistletoe.EmphRefine
